@@ -256,6 +256,10 @@ func c15Profile(tier string) *eng.Profile {
 
 func c19Variants(kvOnly bool) []core.Cfg {
 	var out []core.Cfg
+	seg := int64(100)
+	if kvOnly {
+		seg = 88 // two records of the smallest size fill a segment exactly
+	}
 	modes := []int{core.KV, core.K}
 	if !kvOnly {
 		modes = []int{core.KV}
@@ -264,13 +268,13 @@ func c19Variants(kvOnly bool) []core.Cfg {
 		for _, rw := range []int{core.F, core.M} {
 			for _, st := range []int{core.F, core.M} {
 				for _, sy := range []bool{false, true} {
-					out = append(out, core.Cfg{Mode: m, RW: rw, Start: st, Sync: sy, Seg: 100})
+					out = append(out, core.Cfg{Mode: m, RW: rw, Start: st, Sync: sy, Seg: seg})
 				}
 			}
 		}
 	}
 	if kvOnly {
-		out = append(out, core.Cfg{Mode: core.S, RW: core.F, Start: core.F, Seg: 100}, core.Cfg{Mode: core.S, RW: core.M, Start: core.M, Sync: true, Seg: 100})
+		out = append(out, core.Cfg{Mode: core.S, RW: core.F, Start: core.F, Seg: seg}, core.Cfg{Mode: core.S, RW: core.M, Start: core.M, Sync: true, Seg: seg})
 	}
 	return out
 }
@@ -337,6 +341,9 @@ func c19Profile(tier string, kvOnly bool) *eng.Profile {
 		name = "kv"
 	}
 	base := core.Cfg{Mode: core.KV, RW: core.F, Start: core.F, Seg: 100}
+	if kvOnly {
+		base.Seg = 88
+	}
 	var ops []core.Op
 	var queries []core.Call
 	if kvOnly {
